@@ -238,6 +238,8 @@ func childMain(spec string) {
 		childHandshake(p[1], script)
 	case "hb":
 		childHeartbeat(p[1], p[2])
+	case "host":
+		childHostVersion(p[1], p[2])
 	default:
 		say("OUT badspec")
 		os.Exit(3)
@@ -461,4 +463,25 @@ func connScenarios(o *hlib.Out) {
 		}
 	}
 	o.Extra["conn_scenarios"] = fmt.Sprintf("%d child processes (%d handshake, %d heartbeat), %d died of a panic", len(res), len(hs), len(hb), crashes)
+}
+
+// hostChildScenarios: a sample of release_version values through a real NewSession (system.local of the contact
+// point, a system.peers row, the ring refresh), each in a child process: a panic in hostInfoFromMap kills it.
+func hostChildScenarios(o *hlib.Out) {
+	var specs []string
+	for _, v := range []string{"3.11.10", "4.0.0.2284", "", "x", "3", "1.2.3.4.5", "3.11.10-SNAPSHOT", "v4.1", "2.1.99999999999999999999"} {
+		specs = append(specs, "host:"+v+":3.11.10", "host:3.11.10:"+v)
+	}
+	crashes := 0
+	for _, cr := range runChildren(specs, 30*time.Second, 12) {
+		o.Count("host-version-session(monitor-only)")
+		switch cr.outcome {
+		case "crash":
+			crashes++
+			o.Violate(-1, "panic:NewSession", "", "the process died of a panic while reading system.local / system.peers: "+cr.detail, cr.spec)
+		case "hang", "broken", "":
+			o.Violate(-1, "child-failed", "", fmt.Sprintf("scenario child: %s %s", cr.outcome, cr.detail), cr.spec)
+		}
+	}
+	o.Extra["host_version_sessions"] = fmt.Sprintf("%d child processes, %d died of a panic", len(specs), crashes)
 }
